@@ -28,6 +28,13 @@ def capture(mod, istim, dt, backend, solver="bwd_euler"):
         rec["out"] = np.asarray(out[0], dtype=np.float64).ravel()
         return out
     sv._triang_branched, sv._backsub_branched = wt, wb
+    import jaxley.modules.base as jbase
+    orig_step = jbase.step_voltage_implicit_with_jaxley_spsolve
+
+    def wstep(*a, **k):
+        rec["asm"] = dict(k)      # the inputs of the array assembly (all passed by keyword from Module.step)
+        return orig_step(*a, **k)
+    jbase.step_voltage_implicit_with_jaxley_spsolve = wstep
     try:
         init_fn, step_fn = build_init_and_step_fn(mod, voltage_solver=backend, solver=solver)
         states, params = init_fn([], None, None, dt)
@@ -38,6 +45,7 @@ def capture(mod, istim, dt, backend, solver="bwd_euler"):
         return None
     finally:
         sv._triang_branched, sv._backsub_branched = orig_t, orig_b
+        jbase.step_voltage_implicit_with_jaxley_spsolve = orig_step
         mod.delete_stimuli()
     if "in" not in rec or "out" not in rec:
         return None
@@ -77,3 +85,53 @@ def parse_jsolve(line):
     x = [b2f(int(t)) for t in kv["x"].split(",")] if kv.get("x") else []
     spec = {int(t.split(":")[0]): b2f(int(t.split(":")[1])) for t in kv["spec"].split(",")} if kv.get("spec") else {}
     return dict(exact=kv["exact"] == "1", wf=kv.get("wf") == "1", sat=kv.get("sat") == "1", piv=kv.get("piv") == "1", pad=kv.get("pad") == "1", nspec=int(kv["nspec"]), x=x, spec=spec)
+
+
+def _sched_tokens(idx):
+    cums = [int(x) for x in np.asarray(idx.cumsum_ncomp)]
+    ncs = [int(x) for x in np.asarray(idx.ncomp_per_branch)]
+    toks = [str(len(cums))] + [str(x) for x in cums] + [str(len(ncs))] + [str(x) for x in ncs]
+    cil = [np.asarray(x).reshape(-1, 2) for x in (idx.children_in_level or [])]
+    pil = [np.asarray(x).reshape(-1, 2) for x in (idx.parents_in_level or [])]
+    toks += [str(len(cil))]
+    for c, p in zip(cil, pil):
+        toks += [str(len(c))] + [str(int(v)) for row in c for v in row]
+        toks += [str(len(p))] + [str(int(v)) for row in p for v in row]
+    roots = [int(x) for x in np.asarray(idx.root_inds).ravel()]
+    toks += [str(len(roots))] + [str(r) for r in roots]
+    return cums, ncs, toks
+
+
+def jasm_line(rec, arith="rat"):
+    """the inputs of `step_voltage_implicit_with_jaxley_spsolve` (captured keyword arguments) for the driver command `jasm`"""
+    enc = (lambda v: (lambda f: f"{f.numerator}/{f.denominator}")(Fraction(float(v)))) if arith == "rat" else (lambda v: str(f2b(float(v))))
+    a = rec["asm"]
+    idx = a["idx"]
+    cums, ncs, stoks = _sched_tokens(idx)
+    n = int(len(np.asarray(a["internal_node_inds"])))
+    assert [int(x) for x in np.asarray(a["internal_node_inds"])] == list(range(n))
+    fl = lambda x: [enc(v) for v in np.asarray(x, dtype=np.float64).ravel()]
+    toks = ["jasm", arith, str(cums[-1]), str(n)] + stoks
+    for key in ("voltages", "voltage_terms", "constant_terms"):
+        arr = fl(a[key]); toks += [str(len(arr))] + arr
+    src = [int(x) for x in np.asarray(a["sources"])]; snk = [int(x) for x in np.asarray(a["sinks"])]; typ = [int(x) for x in np.asarray(a["types"])]
+    toks += [str(len(src))] + [str(t) for e in zip(src, snk, typ) for t in e]
+    g = fl(a["axial_conductances"]); toks += [str(len(g))] + g
+    mask = [int(x) for x in np.asarray(idx.mask(np.arange(n)))]
+    toks += [str(n)] + [str(x) for x in mask]
+    for key in ("par_inds", "child_inds"):
+        arr = [int(x) for x in np.asarray(a[key]).ravel()]; toks += [str(len(arr))] + [str(x) for x in arr]
+    grp = [int(x) for x in np.asarray(idx.branchpoint_group_inds).ravel()] if idx.branchpoint_group_inds is not None else []
+    toks += [str(len(grp))] + [str(x) for x in grp]
+    toks += [enc(a["delta_t"])]
+    return " ".join(toks)
+
+
+def parse_jasm(line):
+    if not line.startswith("ok"):
+        return None
+    kv = dict(t.split("=", 1) for t in line.split()[1:])
+    from common import b2f
+    arr = lambda k: np.asarray([b2f(int(t)) for t in kv[k].split(",")] if kv.get(k) else [], dtype=np.float64)
+    return dict(ewf=kv["ewf"] == "1", wf=kv["wf"] == "1", phys=kv["phys"] == "1",
+                arrays={k: arr(k) for k in ("diags", "lowers", "uppers", "solves", "bpd", "bps", "cc", "wc", "cp", "wp")}, x=arr("x"))
